@@ -469,3 +469,167 @@ Proof.
   rewrite sgn_wrapu; [apply wrapu_sgn; lia | lia |].
   assert (2 ^ (32 - 1) <= 2 ^ (64 - 1)) by (apply Z.pow_le_mono_r; lia). lia.
 Qed.
+
+(* ------------------------------------------------------------------ round trips through binary64 (Flocq) *)
+From Coq Require Import Reals.
+From Flocq Require Import Core.
+Local Open Scope Z_scope.
+#[local] Existing Instance Hp32.
+#[local] Existing Instance Hp64.
+#[local] Existing Instance Hm32.
+#[local] Existing Instance Hm64.
+
+
+Lemma IZR_F2R0 : forall z, F2R (Float radix2 z 0) = IZR z.
+Proof. intros. unfold F2R. simpl. ring. Qed.
+
+Lemma f64_of_Z_exact : forall z, Z.abs z < 2 ^ 53 ->
+  B2R 53 1024 (f64_of_Z z) = IZR z /\ is_finite 53 1024 (f64_of_Z z) = true.
+Proof.
+  intros z Hz. unfold f64_of_Z.
+  pose proof (binary_normalize_correct 53 1024 Hp64 Hm64 mode_NE z 0 false) as H.
+  rewrite IZR_F2R0 in H.
+  assert (Hg : generic_format radix2 (SpecFloat.fexp 53 1024) (IZR z)).
+  { apply (generic_format_FLT radix2 (3 - 1024 - 53) 53).
+    apply FLT_spec with (Float radix2 z 0); simpl.
+    - symmetry. apply IZR_F2R0.
+    - exact Hz.
+    - lia. }
+  rewrite round_generic in H; auto with typeclass_instances.
+  rewrite Rlt_bool_true in H.
+  - destruct H as (H1 & H2 & _). split; assumption.
+  - rewrite <- abs_IZR. apply Rlt_trans with (IZR (2 ^ 53)).
+    + apply IZR_lt. exact Hz.
+    + change (2 ^ 53) with (Zpower radix2 53). rewrite IZR_Zpower by lia. apply bpow_lt. lia.
+Qed.
+
+Lemma Btrunc_exact64 : forall (x : binary64) z, B2R 53 1024 x = IZR z -> Btrunc 53 1024 x = z.
+Proof.
+  intros x z H. apply eq_IZR. rewrite (Btrunc_correct 53 1024 Hm64 x). rewrite H.
+  apply round_generic; auto with typeclass_instances.
+  apply generic_format_FIX. apply FIX_spec with (Float radix2 z 0); simpl; [symmetry; apply IZR_F2R0 | reflexivity].
+Qed.
+
+Lemma b64_bits_roundtrip : forall x : binary64, b64_of_bits (bits_of_b64 x) = x.
+Proof. intros x. exact (binary_float_of_bits_of_binary_float 52 11 eq_refl eq_refl eq_refl x). Qed.
+
+Lemma cast_I4_R8 : forall u, c_cast I4 R8 u = bits_of_b64 (f64_of_Z (sgn 32 u)).
+Proof. reflexivity. Qed.
+Lemma cast_R8_I4 : forall u, c_cast R8 I4 u = r8_to_int 32 u.
+Proof. reflexivity. Qed.
+Lemma cast_I8_R8 : forall u, c_cast I8 R8 u = bits_of_b64 (f64_of_Z (sgn 64 u)).
+Proof. reflexivity. Qed.
+Lemma cast_R8_I8 : forall u, c_cast R8 I8 u = r8_to_int 64 u.
+Proof. reflexivity. Qed.
+
+Lemma r8_to_int_of_Z : forall b z, (b = 32 \/ b = 64) -> Z.abs z < 2 ^ 53 -> in_srange b z = true ->
+  r8_to_int b (bits_of_b64 (f64_of_Z z)) = wrapu b z.
+Proof.
+  intros b z Hb Hz Hr. unfold r8_to_int. rewrite b64_bits_roundtrip.
+  destruct (f64_of_Z_exact z Hz) as [HR HF]. rewrite HF. rewrite (Btrunc_exact64 _ z HR).
+  unfold f2i_bits. destruct Hb as [-> | ->];
+    [change (32 <=? 32) with true | change (64 <=? 32) with false]; cbv beta iota zeta; rewrite Hr; reflexivity.
+Qed.
+
+Lemma roundtrip_I4_R8 : forall u, 0 <= u < 2 ^ 32 -> c_cast R8 I4 (c_cast I4 R8 u) = u.
+Proof.
+  intros u Hu. rewrite cast_I4_R8, cast_R8_I4.
+  pose proof (sgn_range 32 u ltac:(lia) Hu) as Hr. change (2 ^ (32 - 1)) with 2147483648 in Hr.
+  rewrite r8_to_int_of_Z.
+  - apply wrapu_sgn; lia.
+  - now left.
+  - change (2 ^ 53) with 9007199254740992. lia.
+  - unfold in_srange. change (2 ^ (32 - 1)) with 2147483648. apply andb_true_intro. split; [apply Z.leb_le | apply Z.ltb_lt]; lia.
+Qed.
+
+Lemma roundtrip_I8_R8 : forall u, 0 <= u < 2 ^ 64 -> Z.abs (sgn 64 u) <=? 2 ^ 53 = true ->
+  c_cast R8 I8 (c_cast I8 R8 u) = u.
+Proof.
+  intros u Hu Hg. apply Z.leb_le in Hg.
+  pose proof (sgn_range 64 u ltac:(lia) Hu) as Hr.
+  destruct (Z_lt_le_dec (Z.abs (sgn 64 u)) (2 ^ 53)) as [Hlt | Hge].
+  - rewrite cast_I8_R8, cast_R8_I8. rewrite r8_to_int_of_Z.
+    + apply wrapu_sgn; lia.
+    + now right.
+    + exact Hlt.
+    + unfold in_srange. apply andb_true_intro. split; [apply Z.leb_le | apply Z.ltb_lt]; lia.
+  - assert (He : Z.abs (sgn 64 u) = 2 ^ 53) by lia.
+    assert (Hu2 : u = 2 ^ 53 \/ u = 2 ^ 64 - 2 ^ 53).
+    { unfold sgn in He. change (2 ^ 64) with 18446744073709551616 in *. change (2 ^ 53) with 9007199254740992 in *.
+      change (2 ^ (64 - 1)) with 9223372036854775808 in *.
+      destruct (u <? 9223372036854775808); lia. }
+    destruct Hu2 as [-> | ->]; vm_compute; reflexivity.
+Qed.
+
+(* binary32 -> binary64 -> binary32 *)
+
+
+
+Lemma finite_sign : forall prec emax s m e H,
+  Rcompare (B2R prec emax (B754_finite prec emax s m e H)) 0 = if s then Lt else Gt.
+Proof.
+  intros. unfold B2R. destruct s; simpl cond_Zopp.
+  - apply Rcompare_Lt. apply F2R_lt_0. simpl. lia.
+  - apply Rcompare_Gt. apply F2R_gt_0. simpl. lia.
+Qed.
+
+Lemma fmt32_in_fmt64 : forall r, generic_format radix2 (SpecFloat.fexp 24 128) r ->
+  generic_format radix2 (SpecFloat.fexp 53 1024) r.
+Proof.
+  intros r H. apply (FLT_format_generic radix2 (3 - 128 - 24) 24) in H.
+  destruct H as [f Hf1 Hf2 Hf3].
+  apply (generic_format_FLT radix2 (3 - 1024 - 53) 53).
+  apply FLT_spec with f; [exact Hf1 | | lia].
+  apply Z.lt_trans with (1 := Hf2). apply (Zpower_lt radix2); lia.
+Qed.
+
+Lemma widen_finite : forall s m e H, let x := B754_finite 24 128 s m e H in
+  B2R 53 1024 (widen x) = B2R 24 128 x /\ is_finite 53 1024 (widen x) = true /\ Bsign 53 1024 (widen x) = s.
+Proof.
+  intros s m e H x. unfold widen, x.
+  pose proof (binary_normalize_correct 53 1024 Hp64 Hm64 mode_NE (cond_Zopp s (Zpos m)) e s) as C.
+  change (F2R (Float radix2 (cond_Zopp s (Zpos m)) e)) with (B2R 24 128 x) in C.
+  rewrite round_generic in C; auto with typeclass_instances.
+  2:{ apply fmt32_in_fmt64. apply generic_format_B2R. }
+  rewrite Rlt_bool_true in C.
+  2:{ apply Rlt_trans with (bpow radix2 128); [apply abs_B2R_lt_emax | apply bpow_lt; lia]. }
+  destruct C as (C1 & C2 & C3). split; [exact C1 | split; [exact C2 |]].
+  rewrite C3. unfold x. rewrite finite_sign. now destruct s.
+Qed.
+
+Lemma narrow_of : forall (y : binary64) (x : binary32),
+  is_finite 24 128 x = true -> is_finite 53 1024 y = true ->
+  B2R 53 1024 y = B2R 24 128 x -> Bsign 53 1024 y = Bsign 24 128 x -> B2R 24 128 x <> 0%R -> narrow y = x.
+Proof.
+  intros y x Fx Fy HR HS Hnz.
+  destruct y as [sy | sy | sy ply Hy | sy my ey Hy]; try discriminate Fy.
+  - simpl in HR. congruence.
+  - unfold narrow.
+    pose proof (binary_normalize_correct 24 128 Hp32 Hm32 mode_NE (cond_Zopp sy (Zpos my)) ey sy) as C.
+    change (F2R (Float radix2 (cond_Zopp sy (Zpos my)) ey)) with (B2R 53 1024 (B754_finite 53 1024 sy my ey Hy)) in C.
+    rewrite HR in C.
+    rewrite round_generic in C; auto with typeclass_instances; [| apply generic_format_B2R].
+    rewrite Rlt_bool_true in C; [| apply abs_B2R_lt_emax].
+    destruct C as (C1 & C2 & C3).
+    apply B2R_Bsign_inj; auto.
+    rewrite C3. rewrite <- HS. rewrite <- HR. rewrite finite_sign. simpl. now destruct sy.
+Qed.
+
+Lemma narrow_widen : forall x : binary32, is_nan 24 128 x = false ->
+  narrow (widen x) = x /\ is_nan 53 1024 (widen x) = false.
+Proof.
+  intros x Hn. destruct x as [s | s | s pl Hpl | s m e H]; try discriminate Hn; try (split; reflexivity).
+  destruct (widen_finite s m e H) as (W1 & W2 & W3). cbv zeta in *.
+  split.
+  - apply narrow_of; auto.
+    + pose proof (finite_sign 24 128 s m e H) as Hs. intro Z0. rewrite Z0 in Hs. rewrite Rcompare_Eq in Hs by reflexivity. destruct s; discriminate.
+  - destruct (widen (B754_finite 24 128 s m e H)); try reflexivity; discriminate W2.
+Qed.
+
+Lemma roundtrip_R4_R8 : forall u, 0 <= u < 2 ^ 32 -> is_nan32 u = false -> c_cast R8 R4 (c_cast R4 R8 u) = u.
+Proof.
+  intros u Hu Hn. change (c_cast R4 R8 u) with (r4_to_r8 u). change (c_cast R8 R4 (r4_to_r8 u)) with (r8_to_r4 (r4_to_r8 u)).
+  unfold r4_to_r8. rewrite Hn. unfold r8_to_r4, is_nan64. rewrite b64_bits_roundtrip.
+  destruct (narrow_widen (b32_of_bits u) Hn) as [E N]. rewrite N, E.
+  exact (bits_of_binary_float_of_bits 23 8 eq_refl eq_refl eq_refl u Hu).
+Qed.
